@@ -57,6 +57,7 @@ func main() {
 		{"TmsAddrGen.v", genTmsAddr},
 		{"PipeGen.v", genPipe},
 		{"IndexTopGen.v", genIndexTop},
+		{"TmsJsonGen.v", genTmsJson},
 	}
 	failed := false
 	for _, g := range gens {
